@@ -244,11 +244,13 @@ func (c *Conn) shmLock(start, n int, write bool) error {
 	if write {
 		kind = "w"
 	}
-	c.step(fmt.Sprintf("lock shm %d+%d %s", start, n, kind))
-	if err := c.shm.Lock(uint64(start), uint64(start+n-1), write); err != nil {
-		return ErrBusy
-	}
-	return nil
+	return c.retry(func() error {
+		c.step(fmt.Sprintf("lock shm %d+%d %s", start, n, kind))
+		if err := c.shm.Lock(uint64(start), uint64(start+n-1), write); err != nil {
+			return ErrBusy
+		}
+		return nil
+	})
 }
 
 func (c *Conn) shmUnlock(start, n int) {
